@@ -34,34 +34,31 @@ Theorem div_encloses : forall C so, CarrierLaws C -> forall z I J x y,
   mem C so x I -> mem C so y J -> ~ y == 0 -> mem C so (x / y) (Interval.div_assign C so z I J).
 Proof. exact Encl.div_encloses. Qed.
 
-(* Interval::mul_assign AS IT IS does not enclose: (-1, 2] * [-3, 1) is computed as (-6, 3). *)
-Definition mul_encloses_full : Prop := forall C so, CarrierLaws C -> forall z I J x y,
+(* Interval::mul_assign as it is now (after commit ed6ee8d) encloses *)
+Theorem mul_encloses : forall C so, CarrierLaws C -> forall z I J x y,
   mem C so x I -> mem C so y J -> mem C so (x * y) (Interval.mul_assign C so z I J).
+Proof. exact Encl.mul_encloses. Qed.
 
-Theorem mul_encloses_refuted : exists (z I J : itv QC) (x y : Q),
-  mem QC true x I /\ mem QC true y J /\ ~ mem QC true (x * y) (Interval.mul_assign QC true z I J).
+(* HISTORICAL, about the code BEFORE ed6ee8d only: it did not enclose ((-1, 2] * [-3, 1) was computed
+   as (-6, 3); (-1, +inf) * (-1, 1) was given a finite upper bound), and it differed from the current
+   code only in branch 9 (both operands straddle zero) when the replacing candidate's flags differ. *)
+Theorem mul_pre_ed6ee8d_refuted : exists (z I J : itv QC) (x y : Q),
+  mem QC true x I /\ mem QC true y J /\ ~ mem QC true (x * y) (Interval.mul_assign_pre_ed6ee8d QC true z I J).
 Proof.
-  exists z0, (fin (-1) true 2 false), (fin (-3) false 1 true), 2, (-3). exact mul_refuted_witness.
+  exists z0, (fin (-1) true 2 false), (fin (-3) false 1 true), 2, (-3). exact mul_pre_ed6ee8d_refuted_witness.
 Qed.
 
-(* an unbounded instance: (-1, +inf) * (-1, 1) is given a finite upper bound *)
-Theorem mul_encloses_refuted_unbounded : exists (z I J : itv QC) (x y : Q),
-  mem QC true x I /\ mem QC true y J /\ ~ mem QC true (x * y) (Interval.mul_assign QC true z I J).
+Theorem mul_pre_ed6ee8d_refuted_unbounded : exists (z I J : itv QC) (x y : Q),
+  mem QC true x I /\ mem QC true y J /\ ~ mem QC true (x * y) (Interval.mul_assign_pre_ed6ee8d QC true z I J).
 Proof.
   exists z0, (upper_unbounded (-1) true), (fin (-1) true 1 true), 5, (1 # 2).
-  exact mul_refuted_witness_unbounded.
+  exact mul_pre_ed6ee8d_refuted_witness_unbounded.
 Qed.
 
-(* with the flags of the chosen candidate carried along (mul_assign_fixed) the product encloses *)
-Theorem mul_fixed_encloses : forall C so, CarrierLaws C -> forall z I J x y,
-  mem C so x I -> mem C so y J -> mem C so (x * y) (Interval.mul_assign_fixed C so z I J).
-Proof. exact Encl.mul_fixed_encloses. Qed.
-
-(* the code and the fixed version differ only where the diagnostic says so (branch 9 + differing flags) *)
-Theorem mul_agrees_unless_flag_loss : forall C so z x y,
+Theorem mul_pre_ed6ee8d_agrees_unless_flag_loss : forall C so z x y,
   snd (mul_diag C so z x y) = (false, false) ->
-  Interval.mul_assign C so z x y = Interval.mul_assign_fixed C so z x y.
-Proof. exact Defect.mul_agrees_unless_flag_loss. Qed.
+  Interval.mul_assign_pre_ed6ee8d C so z x y = Interval.mul_assign C so z x y.
+Proof. exact Defect.mul_pre_ed6ee8d_agrees_unless_flag_loss. Qed.
 
 (* ---- set operations ------------------------------------------------------------------------------ *)
 
